@@ -3,9 +3,11 @@ package rsoac
 import (
 	"github.com/jsightapi/jsight-schema-core/notations/regex"
 	"github.com/jsightapi/jsight-schema-core/zzverif"
+	"github.com/jsightapi/jsight-schema-core/zzverif/zzjson"
 )
 
-var vPatterns = []string{"a", "[a-z]+", "a\\/b", "\\\\", "\\d{2}", "x\"y", ""}
+var vPatterns = []string{"a", "[a-z]+", "a\\/b", "\\\\", "\\d{2}", "x\"y", "",
+	"a\x7fb", "[\x01-\x1f]+", "a\vb", "\a|\b", "<&>", "\t\n", "é|€|😀", "\\/"} // raw control bytes, DEL, HTML-sensitive and non-ASCII characters
 
 // VerifC18_OpenAPIPattern: the OpenAPI object of an accepted regex schema
 // carries exactly the pattern (struct level; the pattern's JSON text is the
@@ -23,18 +25,8 @@ func VerifC18_OpenAPIPattern() {
 	zzverif.Assert(o.root.Pattern.value == "/"+p+"/", "the converter keeps the delimited pattern")
 	got := string(o.root.Pattern.jsonValue())
 	zzverif.Observe("json", got)
-	// JSON string encoding of p: quotes, backslash and double quote escaped
-	want := "\""
-	for i := 0; i < len(p); i++ {
-		switch p[i] {
-		case '"':
-			want += "\\\""
-		case '\\':
-			want += "\\\\"
-		default:
-			want += string(p[i])
-		}
-	}
-	want += "\""
-	zzverif.Assert(got == want, "the OpenAPI pattern is the JSON string of exactly the pattern")
+	// whatever escapes the encoder prefers: the text is ONE JSON string that
+	// decodes (reference decoder) to exactly the pattern
+	evs, ok := zzjson.Decode([]byte(got))
+	zzverif.Assert(ok && len(evs) == 1 && evs[0].Kind == 's' && evs[0].Val == p, "the OpenAPI pattern is a JSON string that decodes to exactly the pattern")
 }
